@@ -158,7 +158,7 @@ class PokerProp(Prop):
         cw = self.correspondence(case, evs)
         ow = self.oracle(case, evs)
         key, tags = self.key_tags(case, evs)
-        return Verdict(not cw, not ow, "; ".join(ow + cw)[:3000], key, tags)
+        return Verdict(not cw, not ow, "; ".join([w[:500] for w in (ow[:6] + cw[:3])]), key, tags)
 
     def shrink_candidates(self, case):
         ops = case["ops"]
